@@ -187,6 +187,36 @@ impl Database {
         TimeZoneNameIter::from_iter(names.available().into_iter())
     }
 
+    /// Verification hook (only with `--cfg jiff_verif`): sets the cache
+    /// time-to-live of cached zones and of the names index, and re-stamps the
+    /// expiration of everything already cached with the new TTL, so that
+    /// expiry paths are reachable without waiting for the 5 minute default.
+    #[cfg(jiff_verif)]
+    pub(crate) fn verif_set_ttl(
+        &self,
+        zones_ttl: Duration,
+        names_ttl: Duration,
+    ) {
+        let mut zones = self.zones.write().unwrap();
+        zones.ttl = zones_ttl;
+        for czone in zones.zones.iter_mut() {
+            czone.expiration = if zones_ttl == Duration::ZERO {
+                Expiration::expired()
+            } else {
+                Expiration::after(zones_ttl)
+            };
+        }
+        if let Some(ref names) = self.names {
+            let mut inner = names.inner.write().unwrap();
+            inner.ttl = names_ttl;
+            inner.expiration = if names_ttl == Duration::ZERO {
+                Expiration::expired()
+            } else {
+                Expiration::after(names_ttl)
+            };
+        }
+    }
+
     pub(crate) fn is_definitively_empty(&self) -> bool {
         self.names.is_none()
     }
